@@ -306,6 +306,135 @@ def r07e(ctx):
         ctx.report("R07e", h, h.node, "NamedRange.name checks", "the named-range name setter no longer rejects forbidden characters and cell-address-shaped names")
 
 
+def _char_fsm(f):
+    """Extract the character-class automaton of a `for x in name: if … elif … else …` loop that drives a string-valued state variable.
+    Returns (initial state, step function(state, cls) -> (state, goes_on), final test constants that raise, loop node) or None.
+    Classes: 'L' (string.ascii_letters), 'D' (string.digits), 'O' (anything else)."""
+    from ..paths import if_arms
+    for lp in [n for n in walk_no_nested(f.node) if isinstance(n, ast.For) and isinstance(n.target, ast.Name)]:
+        xv = lp.target.id
+        if len(lp.body) != 1 or not isinstance(lp.body[0], ast.If):
+            continue
+        # flatten the chain
+        arms, cur = [], lp.body[0]
+        while True:
+            core, when_t, when_f = if_arms(cur)  # a negated test with swapped arms is the same chain
+            arms.append((core, when_t))
+            if len(when_f) == 1 and isinstance(when_f[0], ast.If):
+                cur = when_f[0]
+                continue
+            arms.append((None, when_f))
+            break
+        sv = {t.id for _, body in arms for st in body if isinstance(st, ast.Assign) and isinstance(st.value, ast.Constant) and isinstance(st.value.value, str)
+              for t in st.targets if isinstance(t, ast.Name)}
+        if len(sv) != 1:
+            continue
+        sv = next(iter(sv))
+        inits = [a for a in walk_no_nested(f.node) if isinstance(a, ast.Assign) and a.lineno < lp.lineno and any(isinstance(t, ast.Name) and t.id == sv for t in a.targets)
+                 and isinstance(a.value, ast.Constant)]
+        if not inits:
+            continue
+        init = inits[-1].value.value
+
+        def parse_test(t):
+            """-> (classes or None=any, states or None=any); raises ValueError on an unknown shape"""
+            parts = t.values if isinstance(t, ast.BoolOp) and isinstance(t.op, ast.And) else [t]
+            classes, states = None, None
+            for q in parts:
+                if not (isinstance(q, ast.Compare) and len(q.ops) == 1 and isinstance(q.left, ast.Name)):
+                    raise ValueError(norm(q, 40))
+                op, rhs = q.ops[0], q.comparators[0]
+                if q.left.id == xv and isinstance(op, ast.In) and isinstance(rhs, ast.Attribute) and rhs.attr in ("ascii_letters", "digits"):
+                    c = {"L"} if rhs.attr == "ascii_letters" else {"D"}
+                    classes = c if classes is None else classes & c
+                elif q.left.id == sv and isinstance(op, ast.In) and isinstance(rhs, (ast.Tuple, ast.Set, ast.List)) and all(isinstance(e, ast.Constant) for e in rhs.elts):
+                    st_ = {e.value for e in rhs.elts}
+                    states = st_ if states is None else states & st_
+                elif q.left.id == sv and isinstance(op, ast.Eq) and isinstance(rhs, ast.Constant):
+                    states = {rhs.value} if states is None else states & {rhs.value}
+                else:
+                    raise ValueError(norm(q, 40))
+            return classes, states
+
+        parsed = []
+        for t, body in arms:
+            cond = (None, None) if t is None else parse_test(t)
+            new = [st.value.value for st in body if isinstance(st, ast.Assign) and isinstance(st.value, ast.Constant) and any(isinstance(x, ast.Name) and x.id == sv for x in st.targets)]
+            goes_on = not any(isinstance(st, ast.Break) for st in body)
+            parsed.append((cond, new[-1] if new else None, goes_on))
+
+        def step(state, cls):
+            for (classes, states), new, goes_on in parsed:
+                if (classes is None or cls in classes) and (states is None or state in states):
+                    return (new if new is not None else state), goes_on
+            return state, True
+
+        finals = set()
+        after = [n for n in walk_no_nested(f.node) if isinstance(n, ast.If) and n.lineno > lp.end_lineno]
+        for n in after:
+            core, when_t, when_f = if_arms(n)
+            for arm, pol in ((when_t, True), (when_f, False)):
+                if any(isinstance(x, ast.Raise) for st in arm for x in ast.walk(st)) and isinstance(core, ast.Compare) and isinstance(core.left, ast.Name) and core.left.id == sv \
+                        and len(core.ops) == 1 and isinstance(core.comparators[0], ast.Constant) and isinstance(core.ops[0], ast.Eq) and pol:
+                    finals.add(core.comparators[0].value)
+        return init, step, finals, lp
+    return None
+
+
+def r07i(ctx):
+    """A named-range name that has the shape of a cell address is refused — all of them.
+
+    The setter walks the name with a small hand-written automaton (letters, then digits) and refuses the name when the walk ends in the
+    "letters then digits" state.  The automaton is extracted from the code (states = the string constants of the state variable, input
+    classes = ascii letter / digit / other, arms evaluated in order) and compared, over every class string up to length 8, with the
+    specification `[A-Za-z]+[0-9]+`.  No name is run: the comparison is between two finite automata.
+    """
+    import itertools
+    repo = ctx.repo
+    ctx.rule("R07i", "NamedRange.name: the hand-written automaton refuses exactly the names of the form letters+digits+", floor=1)
+    h = repo.func("NamedRange.name", "setter")
+    try:
+        fsm = _char_fsm(h)
+    except ValueError as e:
+        raise AnalysisError(f"R07i: test `{e}` of the name automaton is not of a known shape") from None
+    if fsm is None:
+        raise AnalysisError("R07i: cell-address automaton not found in the NamedRange.name setter")
+    init, step, finals, lp = fsm
+
+    def refuses(word):
+        state = init
+        for c in word:
+            state, goes_on = step(state, c)
+            if not goes_on:
+                break
+        return state in finals
+
+    def spec(word):
+        k = 0
+        while k < len(word) and word[k] == "L":
+            k += 1
+        j = k
+        while j < len(word) and word[j] == "D":
+            j += 1
+        return k >= 1 and j > k and j == len(word)
+
+    diff = None
+    for n in range(1, 9):
+        for w in itertools.product("LDO", repeat=n):
+            if refuses(w) != spec(w):
+                diff = "".join(w)
+                break
+        if diff:
+            break
+    ok = diff is None
+    ctx.instance("R07i", f"{h.file}:{h.ident}", f"automaton with refusing state(s) {sorted(finals)} ≡ letters+digits+ on all 9840 class strings up to length 8", ok=ok, nontrivial=True, line=lp.lineno)
+    if not ok:
+        ex = diff.replace("L", "A").replace("D", "1").replace("O", "_")
+        ctx.report("R07i", h, lp, f"automaton differs from letters+digits+ on class string {diff!r}",
+                   f"the cell-address test of the NamedRange.name setter {'accepts' if spec(tuple(diff)) else 'refuses'} names of the shape {diff!r} (e.g. {ex!r}) "
+                   f"{'although they are' if spec(tuple(diff)) else 'although they are not'} of the form letters+digits+: a named range called like a cell (\"AB12\") is written into the document")
+
+
 def r07f(ctx):
     """A column declaration inserted by position lands before the first row.
 
@@ -535,6 +664,7 @@ def run(ctx):
     r07f(ctx)
     r07g(ctx)
     r07h(ctx)
+    r07i(ctx)
     # width and height are read from the position maps: a map left obsolete by a public method makes the reported size disagree with the XML (rules shared with C02)
     from .c02 import r02ab
     r02ab(ctx, tom)
@@ -546,6 +676,9 @@ _T = "src/odfdo/table.py"
 _R = "src/odfdo/row.py"
 _C = "src/odfdo/cell.py"
 SEEDS = [
+    Seed("cell-address automaton stops looping on digits", "fault", _T, '            elif step in ("A", "A1") and x in string.digits:', '            elif step == "A" and x in string.digits:', "R07i"),
+    Seed("cell-address automaton lets letters follow digits", "fault", _T, '            if x in string.ascii_letters and step in ("", "A"):', '            if x in string.ascii_letters:', "R07i"),
+    Seed("cell-address automaton with the tests swapped inside the conjunction", "neutral", _T, '            elif step in ("A", "A1") and x in string.digits:', '            elif x in string.digits and step in ("A1", "A"):'),
     Seed("extend_rows measures the rows it was given", "fault", _T, "        width = self.width\n        for row in self.traverse():\n            if row.width > width:", "        width = self.width\n        for row in rows:\n            if row.width > width:", "R07h"),
     Seed("rstrip: remaining count accumulates instead of being replaced", "fault", _T,
          "        diff = column_width - max_width\n        if diff > 0:\n            for column in reversed(columns):\n                repeated = column.repeated or 1\n                repeated = repeated - diff\n                if repeated > 0:\n                    column.repeated = repeated\n                    break\n                else:\n                    column.parent.delete(column)\n                    diff = -repeated\n",
